@@ -98,6 +98,15 @@ func (d *dec) datasetData(o *Object, sp *dataspace, lay *layoutMsg, external boo
 func (d *dec) chunkedData(o *Object, sp *dataspace, lay *layoutMsg, what string) {
 	rank := len(lay.dims) - 1
 	es := uint64(o.Type.Size)
+	libIndex := false
+	if lay.version == 3 && len(lay.dims) == len(sp.dims) && len(sp.dims) > 0 {
+		// the pinned library stores only the rank chunk dimensions: no trailing element-size dimension,
+		// neither here nor in the B-tree keys
+		d.deviate("chunked-no-elemsize-dim", "%s: chunked layout dimensionality is %d = rank; it must be rank+1 = %d with the datatype size as the last dimension", what, len(lay.dims), len(sp.dims)+1)
+		libIndex = true
+		rank = len(sp.dims)
+		lay.dims = append(append([]uint64{}, lay.dims...), es)
+	}
 	if rank != len(sp.dims) {
 		d.fail("%s: chunked layout dimensionality %d, expected rank+1 = %d", what, len(lay.dims), len(sp.dims)+1)
 	}
@@ -121,8 +130,10 @@ func (d *dec) chunkedData(o *Object, sp *dataspace, lay *layoutMsg, what string)
 	switch {
 	case lay.version <= 3:
 		o.ChunkIndex = "btree1"
-		if lay.addr != UndefAddr {
-			d.chunkBtree(o, lay.addr, rank, what)
+		if libIndex && lay.addr == 0 {
+			d.deviate("chunk-btree-addr-zero", "%s: chunk B-tree address is 0 (the superblock); a dataset without allocated chunks has the undefined address", what)
+		} else if lay.addr != UndefAddr {
+			d.chunkBtree(o, lay.addr, rank, what, libIndex)
 		}
 	case lay.idxType == 1:
 		o.ChunkIndex = "single"
@@ -166,8 +177,7 @@ func (d *dec) chunkedData(o *Object, sp *dataspace, lay *layoutMsg, what string)
 		cw := fmt.Sprintf("%s chunk at offset %v", what, c.Offset[:rank])
 		for k := 0; k < rank; k++ {
 			if c.Offset[k]%o.ChunkDims[k] != 0 {
-				d.deviate("chunk-key-scaled", "%s: offset %d in dimension %d is not a multiple of the chunk dimension %d (chunk keys hold element offsets)", cw, c.Offset[k], k, o.ChunkDims[k])
-				break
+				d.fail("%s: offset %d in dimension %d is not a multiple of the chunk dimension %d", cw, c.Offset[k], k, o.ChunkDims[k])
 			}
 		}
 		if len(o.Filters) == 0 && uint64(c.Size) != chunkBytes {
@@ -262,9 +272,12 @@ func copyChunk(dst []byte, dims []uint64, chunk []byte, cdims, off []uint64, es 
 }
 
 // chunkBtree walks the version 1 B-tree (node type 1) of a chunked dataset.
-func (d *dec) chunkBtree(o *Object, root uint64, rank int, what string) {
+func (d *dec) chunkBtree(o *Object, root uint64, rank int, what string, libIndex bool) {
 	visited := map[uint64]bool{}
 	keySize := uint64(8 + 8*(rank+1))
+	if libIndex {
+		keySize = uint64(8 + 8*rank)
+	}
 	K := d.f.ChunkK
 	nodeSize := uint64(8+2*d.O) + uint64(2*K)*(keySize+uint64(d.O)) + keySize
 	var prev []uint64
@@ -276,7 +289,15 @@ func (d *dec) chunkBtree(o *Object, root uint64, rank int, what string) {
 			d.fail("%s at 0x%x: node reachable twice (cycle)", nw, a)
 		}
 		visited[addr] = true
-		b := d.bytesAt(addr, nodeSize, nw)
+		var b []byte
+		if libIndex {
+			hb := d.bytesAt(addr, uint64(8+2*d.O), nw)
+			nn := uint64(hb[6]) | uint64(hb[7])<<8
+			used := uint64(8+2*d.O) + nn*(keySize+uint64(d.O)) + keySize
+			b = d.bytesAt(addr, used, nw)
+		} else {
+			b = d.bytesAt(addr, nodeSize, nw)
+		}
 		c := d.cursor(b, a, nw)
 		c.sig("TREE")
 		if t := c.u8("node type"); t != 1 {
@@ -290,12 +311,14 @@ func (d *dec) chunkBtree(o *Object, root uint64, rank int, what string) {
 			d.fail("%s at 0x%x: node level %d is implausible", nw, a, level)
 		}
 		n := int(c.u16("entries used"))
-		if n > 2*K {
+		if libIndex {
+			d.deviate("chunk-btree-node-unpadded", "%s at 0x%x: the node holds %d entries (2K = %d) and occupies only the %d bytes in use instead of the fixed node size %d", nw, a, n, 2*K, len(b), nodeSize)
+		} else if n > 2*K {
 			d.fail("%s at 0x%x: entries used %d exceeds 2K = %d", nw, a, n, 2*K)
 		}
 		c.addr("left sibling")
 		c.addr("right sibling")
-		d.addExtent(a, nodeSize, "btree1-chunk")
+		d.addExtent(a, uint64(len(b)), "btree1-chunk")
 		if n == 0 && depth > 0 {
 			d.fail("%s at 0x%x: non-root node with 0 entries", nw, a)
 		}
@@ -305,6 +328,9 @@ func (d *dec) chunkBtree(o *Object, root uint64, rank int, what string) {
 			ch.FilterMask = c.u32("key: filter mask")
 			ch.Offset = make([]uint64, rank+1)
 			for k := range ch.Offset {
+				if libIndex && k == rank {
+					break // no element-size dimension in the key; Offset keeps the trailing 0
+				}
 				ch.Offset[k] = c.u64("key: chunk offset")
 			}
 			ch.Addr = c.addr("child pointer")
@@ -380,10 +406,6 @@ func (d *dec) unfilter(o *Object, b []byte, mask uint32, chunkBytes uint64, cw s
 		case 1:
 			zr, err := zlib.NewReader(bytes.NewReader(b))
 			if err != nil {
-				if len(b) >= 2 && b[0] == 0x1f && b[1] == 0x8b {
-					d.deviate("deflate-gzip-container", "%s: deflate filter output is a gzip member (RFC 1952), HDF5 uses the zlib stream format (RFC 1950)", cw)
-					return nil, "deflate data in gzip container"
-				}
 				d.fail("%s: deflate filter: not a zlib stream: %v", cw, err)
 			}
 			limit := int64(chunkBytes) + 4096
@@ -411,7 +433,7 @@ func (d *dec) unfilter(o *Object, b []byte, mask uint32, chunkBytes uint64, cw s
 			body := b[:len(b)-4]
 			stored := le32(b[len(b)-4:])
 			if got := refimpl.Fletcher32HDF5(body); got != stored {
-				if fletcherLE(body) == stored {
+				if fletcherLib(body) == stored {
 					d.deviate("fletcher32-le-words", "%s: fletcher32 checksum 0x%08x was computed over little-endian 16-bit words; HDF5 sums big-endian words (0x%08x)", cw, stored, got)
 				} else {
 					d.fail("%s: fletcher32 checksum stored 0x%08x, computed 0x%08x", cw, stored, got)
@@ -440,33 +462,20 @@ func unshuffle(b []byte, es int) []byte {
 	return out
 }
 
-// fletcherLE is Fletcher-32 over little-endian 16-bit words (the variant the pinned library writes).
-func fletcherLE(data []byte) uint32 {
+// fletcherLib is the Fletcher-32 variant the pinned library writes: little-endian 16-bit words, sums
+// reduced modulo 65535 after every word, an odd trailing byte taken as the low byte.
+func fletcherLib(data []byte) uint32 {
 	var s1, s2 uint32
 	i := 0
-	n := len(data) / 2
-	for n > 0 {
-		t := n
-		if t > 360 {
-			t = 360
-		}
-		n -= t
-		for ; t > 0; t-- {
-			s1 += uint32(data[i]) | uint32(data[i+1])<<8
-			s2 += s1
-			i += 2
-		}
-		s1 = (s1 & 0xffff) + (s1 >> 16)
-		s2 = (s2 & 0xffff) + (s2 >> 16)
+	for ; i+1 < len(data); i += 2 {
+		w := uint32(data[i]) | uint32(data[i+1])<<8
+		s1 = (s1 + w) % 65535
+		s2 = (s2 + s1) % 65535
 	}
-	if len(data)%2 == 1 {
-		s1 += uint32(data[i])
-		s2 += s1
-		s1 = (s1 & 0xffff) + (s1 >> 16)
-		s2 = (s2 & 0xffff) + (s2 >> 16)
+	if i < len(data) {
+		s1 = (s1 + uint32(data[i])) % 65535
+		s2 = (s2 + s1) % 65535
 	}
-	s1 = (s1 & 0xffff) + (s1 >> 16)
-	s2 = (s2 & 0xffff) + (s2 >> 16)
 	return s2<<16 | s1
 }
 
